@@ -292,7 +292,11 @@ func concChild() {
 		// sequential prefix, both sides
 		diverged := false
 		for _, e := range p.prefix {
-			err := applyReal(c, e)
+			var err error
+			if pn, _, _ := vf.Recover(func() { err = applyReal(c, e) }); pn {
+				diverged = true
+				break
+			}
 			r := m.apply(e)
 			if (r == resOK) != (err == nil) && r != resEither {
 				diverged = true
